@@ -217,7 +217,13 @@ fn completeness_in(paths: &[PathBuf], file: &gen::ast::File, src: &str, rec: &Re
 
 const LIB: &str = "template A0() { signal output o; o <== 7; }\ntemplate A1(k) { signal input a; signal output o; o <== a * k; }\ntemplate A2(k) { signal input a; signal input b; signal output o; o <== a * b + k; }\ntemplate A22(k) { signal input a; signal input b; signal output o1; signal output o2; o1 <== a + b; o2 <== a * k; }\ntemplate AN2(k) { signal input a; signal input b; a * k === b; }\ntemplate B2(k) { signal input q, p; signal output z, y; z <== q * k; y <== p + k; }\n";
 
+/// The same templates as an included (never named) file, two of them written with sugar of their own:
+/// a named template that instantiates them needs them desugared as well.
+const LIB_INCLUDED: &str = "pragma circom 2.1.0;\ntemplate AId() { signal input i; signal output o; o <== i; }\ntemplate A0() { signal output o; o <== 7; }\ntemplate A1(k) { signal input a; signal output o; signal m <== AId()(a); o <== m * k; }\ntemplate A2(k) { signal input a; signal input b; signal output o; o <== a * b + k; }\ntemplate A22(k) { signal input a; signal input b; signal output o1; signal output o2; (o1, o2) <== (a + b, a * k); }\ntemplate AN2(k) { signal input a; signal input b; a * k === b; }\ntemplate B2(k) { signal input q, p; signal output z, y; z <== q * k; y <== p + k; }\n";
+
 struct Pair {
+    /// Some(text): the helper templates live in an included file `zzlib.circom` with this content
+    lib_file: Option<&'static str>,
     sugared: String,
     expanded: String,
     forms: Vec<&'static str>,
@@ -384,7 +390,12 @@ fn gen_pair(t: &mut Tape) -> Pair {
         s = format!("template Top(n) {{\n{decl_s}{body_s}}}\n");
         e = format!("template Top(n) {{\n{decl_e}{body_e}}}\n");
     }
-    Pair { sugared: format!("pragma circom 2.1.0;\n{LIB}{s}"), expanded: format!("pragma circom 2.1.0;\n{LIB}{e}"), forms, in_loop }
+    if t.chance(64) {
+        forms.push("helper templates in an included file, written with sugar themselves");
+        let inc = "include \"zzlib.circom\";\n";
+        return Pair { lib_file: Some(LIB_INCLUDED), sugared: format!("pragma circom 2.1.0;\n{inc}{s}"), expanded: format!("pragma circom 2.1.0;\n{inc}{e}"), forms, in_loop };
+    }
+    Pair { lib_file: None, sugared: format!("pragma circom 2.1.0;\n{LIB}{s}"), expanded: format!("pragma circom 2.1.0;\n{LIB}{e}"), forms, in_loop }
 }
 
 /// `A2_12_345` / `zc7` -> `COMP`
@@ -442,6 +453,9 @@ fn faithfulness_case(ctx: &Ctx, tape: &[u8], rec: &Rec) -> Verdict {
     let pe = dir.join("e.circom");
     std::fs::write(&ps, &p.sugared).map_err(|e| Bad::new(format!("INFRA write: {e}")))?;
     std::fs::write(&pe, &p.expanded).map_err(|e| Bad::new(format!("INFRA write: {e}")))?;
+    if let Some(lib) = p.lib_file {
+        std::fs::write(dir.join("zzlib.circom"), lib).map_err(|e| Bad::new(format!("INFRA write: {e}")))?;
+    }
     let fs = findings(&ps);
     let fe = findings(&pe);
     let _ = std::fs::remove_dir_all(&dir);
@@ -470,6 +484,9 @@ fn faithfulness_case(ctx: &Ctx, tape: &[u8], rec: &Rec) -> Verdict {
         let dir = scratch(ctx, "c18b");
         let pp = dir.join("p.circom");
         std::fs::write(&pp, &plain).map_err(|e| Bad::new(format!("INFRA write: {e}")))?;
+        if let Some(lib) = p.lib_file {
+            std::fs::write(dir.join("zzlib.circom"), lib).map_err(|e| Bad::new(format!("INFRA write: {e}")))?;
+        }
         let fp = findings(&pp);
         let _ = std::fs::remove_dir_all(&dir);
         let (fp, ep) = fp.map_err(|e| Bad::new(format!("analysing the program without `parallel` panicked: {e}")).sig("C18:panic").rendered(render()))?;
